@@ -286,6 +286,22 @@ fn check_one<CS: BbsCiphersuite>(rep: &Report, ck: &str, c: &Case) -> CheckResul
         if let Ok(b2) = BlindFactor::from_bytes(&bb) {
             cx.expect_reject("verify_blind_sign", "blind-factor-bit", || vb(&msgs, Some(&cm), Some(&b2), hdr, pk), || "".into())?;
         }
+        // the blinding factor as the octets it travels in: the same residue written as value + r, and r itself
+        // (the residue 0 of an issuance without prover blind) are other octet strings; a decoder that refuses
+        // them is fine, one that accepts them must not open the signature
+        for (tag, oct) in [("blind-factor-octets-plus-r", plus_r(&bf.to_bytes())), ("blind-factor-octets=r", Some(hex::decode(GROUP_ORDER_HEX).unwrap())), ("blind-factor-octets=r+1", plus_r(&{
+            let mut one = [0u8; 32];
+            one[31] = 1;
+            one
+        }))] {
+            if let Some(Ok(b2)) = oct.map(|o| BlindFactor::from_bytes(&<[u8; 32]>::try_from(o.as_slice()).unwrap())) {
+                cx.expect_reject("verify_blind_sign", tag, || vb(&msgs, Some(&cm), Some(&b2), hdr, pk), || "non-canonical octets accepted by the decoder".into())?;
+                if cm.is_empty() {
+                    // signature issued on a commitment to nothing: also against the `None` spelling of the messages
+                    cx.expect_reject("verify_blind_sign", tag, || vb(&msgs, None, Some(&b2), hdr, pk), || "committed = None".into())?;
+                }
+            }
+        }
         for e in edits_of(&header, &mut st) {
             cx.expect_reject("verify_blind_sign", "header-edit", || vb(&msgs, Some(&cm), Some(&bf), e.as_deref(), pk), || format!("{:?}", e.as_ref().map(|x| hx(x))))?;
         }
